@@ -83,4 +83,10 @@ pub fn vp_sorted_keys_lt_desc<V>(m: &IntMap<V>, x: u64) -> (r: Vec<u64>)
         forall|i: int| 0 <= i < r@.len() ==> (#[trigger] r@[i]) < x && m@.contains_key(r@[i]),
         forall|k: u64| m@.contains_key(k) && k < x ==> r@.contains(k)
 { unimplemented!() }
+/// `m.iter()` consumed by a for loop (dependency, ASSUMED): yields one (key, value) pair for exactly the keys of the map
+#[verifier::external_body]
+pub fn vp_iter<'a, V>(m: &'a IntMap<V>) -> (r: Vec<(&'a u64, &'a V)>)
+    ensures forall|i: int| 0 <= i < r@.len() ==> m@.contains_key(*(#[trigger] r@[i]).0) && *r@[i].1 == m@[*r@[i].0],
+        forall|k: u64| #![trigger m@.contains_key(k)] m@.contains_key(k) ==> exists|i: int| 0 <= i < r@.len() && *(#[trigger] r@[i]).0 == k
+{ unimplemented!() }
 } // mod intmap
